@@ -15,7 +15,6 @@ Bounded run-time harness on the real shelve back end with the real
 '''
 
 import builtins
-import hashlib
 import logging
 import os
 import random
@@ -36,8 +35,9 @@ BOUND = (
     '(repeating; one > 64 KiB), remove, purge tool, close/reopen} on 2 targets x 2 algorithms x runs {1,2}; crash injection before '
     'every intercepted call k (tempfile.mkstemp, os.close, open, pickle.dump (also torn), os.chmod, subprocess.check_output x2, '
     'os.path.exists, os.unlink, shutil.move inside dawgie.db.util; Shelf.__setitem__/__delitem__ = every table write) of one '
-    'update, all k, two crash modes (exception / fork+os._exit), for 4 fixed scenarios (+ seeded random ones in the thorough tier), '
-    'followed by reopen, audit, retry of the update, audit, purge, audit'
+    'update, all k, two crash modes (exception / fork+os._exit), for 4 fixed + 28 seeded random scenarios (thorough tier; the quick '
+    'tier: the overwrite scenario at all k in both modes, two more at every 2nd k as exception), followed by reopen, audit, retry of '
+    'the update, audit (and purge + audit on a subset)'
 )
 
 CLAUSES = [
@@ -161,7 +161,8 @@ def patch_injection_points():
     import tempfile
 
     u = dawgie.db.util
-    assert u.subprocess is subprocess, 'C07 runs the real md5sum/sha1sum'
+    sc.fast_digest(False)  # C07 always runs the real md5sum / sha1sum
+    assert u.subprocess is subprocess
     path = _Proxy(os.path, {'exists': _wrap(os.path.exists, 'os.path.exists')})
     u.os = _Proxy(
         os,
